@@ -68,6 +68,10 @@ mod nonce;
 mod proofs;
 mod states;
 
+#[cfg(feature = "verif-hooks")]
+#[doc(hidden)]
+pub use states::verif_hooks;
+
 mod types {
     pub use bls12_381::{pairing, G1Affine, G1Projective, G2Affine, G2Projective, Scalar};
     pub use zkchannels_crypto::*;
